@@ -76,6 +76,13 @@ def search(pid, failure, seed, skip=None):
                     'expected': failure.get('clause'), 'observed': failure.get('msg'),
                     'how': 'cargo kani --concrete-playback=print --harness ' + failure['fn']}
         return {'found': False, 'how': 'Kani reported the failed check without a concrete counterexample'}
+    # function names are not unique across files (next, new, read, write ...): the unit that holds the refuted obligation names its
+    # own enumerator first; the function name is the fallback
+    unit = (failure.get('obligation') or '').split('/')[0]
+    if unit and not unit.startswith('e3'):
+        r = _run(['search', 'unit:' + unit, str(seed)], skip=skip)
+        if r.get('found') or 'no enumerator' not in (r.get('how') or ''):
+            return r
     return _run(['search', failure['fn'].split('::')[-1], str(seed)], skip=skip)
 
 
